@@ -99,19 +99,36 @@ def class_non_degenerate(topo, kt, pal="real"):
     return r
 
 
-def float_response(desc, w, source_id):
+def float_response(desc, w, source_id, cond_max=1e10):
     """(phi dict, net current dict, netlist) of the unit response at jw, or None if (numerically) singular."""
     nl = rd.laplace_netlist(desc, [0, w], unit_source=source_id)
     M, rhs, nidx, nb = rn.tableau(nl)
     A = np.array([[complex(x) for x in row] for row in M], dtype=complex)
-    if np.linalg.cond(A) > 1e10:
+    # rows of the tableau carry very different units (ohms, siemens, 1): equilibrate before judging the conditioning
+    rs = np.abs(A).max(axis=1)
+    rs[rs == 0] = 1.0
+    if np.linalg.cond(A / rs[:, None]) > cond_max:
         return None
-    x = np.linalg.solve(A, np.array([complex(v) for v in rhs]))
+    x = np.linalg.solve(A / rs[:, None], np.array([complex(v) for v in rhs]) / rs)
     nn = len(nidx)
     phi = {n: x[k] for n, k in nidx.items()}
     phi[nl["ref"]] = 0j
     cur = {b[3]: x[nn + k] for k, b in enumerate(nl["branches"])}
     return phi, cur, nl
+
+
+def pole_scaled_frequencies(A):
+    """rational frequencies spread over the magnitudes of the natural frequencies (for palettes in physical units)"""
+    ev = np.linalg.eigvals(np.asarray(A, float))
+    mags = sorted(abs(x) for x in ev if abs(x) > 0) or [1.0]
+    out = [F(0)]
+    for m in (mags[0], mags[-1]):
+        for f in (0.013, 0.13, 0.5, 1.1, 2.3, 10.7, 97.0):
+            v = m * f
+            w = F(int(v * 1000), 1000) if v < 1e6 else F(int(v))
+            if w not in out:
+                out.append(w)
+    return out
 
 
 def library_models(desc):
